@@ -112,7 +112,7 @@ def file_case(draw, tier):
                     v[rng.random(3) < 0.7] = 0.0            # frozen atoms: some or all components exactly zero
                 rec += v.tolist()
             records.append(rec)
-    title = draw(st.sampled_from(["system", "Generated  title, t= 0.0", "x"]))
+    title = draw(st.sampled_from(["system", "Generated  title, t= 0.0", "x", "", "   ", " \t", "42", "  leading and trailing  "]))
     box = np.round(rng.uniform(1, 50, 3), 5).tolist()
     nops = draw(st.integers(1, 200 if tier == "thorough" else 40))
     ops = draw(st.lists(op_strategy(), min_size=1, max_size=nops))
